@@ -392,11 +392,11 @@ def check(run):
     from .util import type_narrowed_dead_params
     n = type_narrowed_dead_params(run, "R03.8", [f for f in run.project.all_functions() if not f.module.name.startswith("mygrad.nnet")])
     run.count("type-tested parameters", n)
-    r03_1(run)
-    r03_2(run)
-    r03_3(run)
-    r03_4(run)
-    r03_5(run)
-    r03_7(run)
+    run.do(r03_1)
+    run.do(r03_2)
+    run.do(r03_3)
+    run.do(r03_4)
+    run.do(r03_5)
+    run.do(r03_7)
     from .c11 import ufunc_method_dispatch
-    ufunc_method_dispatch(run, "R03.6")
+    run.do(ufunc_method_dispatch, "R03.6")
